@@ -132,6 +132,8 @@ func stringInterpolationOperator(d *dataTreeNavigator, context Context, expressi
 			return Context{}, err
 		}
 		node := createScalarNode(value, value)
+		// a string evaluated for a node of some document is a result of that document (and file)
+		node.document, node.filename, node.fileIndex = candidate.GetDocument(), candidate.GetFilename(), candidate.GetFileIndex()
 		results.PushBack(node)
 	}
 
